@@ -70,6 +70,7 @@ def apply_variant(base, v):
     s["types"] += [
         {"kind": "INPUT_OBJECT", "name": "Filter", "oneOf": False, "inputFields": [
             {"name": "color", "type": tr("Color")}, {"name": "minAge", "type": tr("Int"), "default": "3"},
+            {"name": "limit", "type": tr("Int", ["R"]), "default": "25"},       # non-null with a default
             {"name": "tags", "type": tr("String", ["L", "R"])}, {"name": "and", "type": tr("Filter", ["L", "R"])},
             {"name": "not", "type": tr("Filter")}, {"name": "by", "type": tr("By")},
             {"name": "grid", "type": tr("Int", ["R", "L", "L", "R"])}]},
